@@ -68,6 +68,16 @@ def history_prepass(ctx, repo, pid):
         ctx.finding('HIST', '%s::%s::%s' % (rel, q, {'ALIAS': 'shared entry changed in place', 'STALE': 'derived attribute not invalidated'}.get(rule, 'memo ' + rule)), rel, node.lineno, msg,
                     'the same function called twice in one process with inputs the memo key does not separate')
     ctx.count('functions scanned for history dependence', n_fn)
+    # rule GEN: value-independent hazards (sa/hazards.py) in the same scope
+    if sc is not None:
+        from .hazards import scan as hz_scan
+        ctx.rule('GEN', 'no position tested for truth, no loop variable surviving a handled error, no module-level one-shot iterator, no '
+                        'string collection with an element made of adjacent literals, in the functions / modules the property speaks about')
+        hz, n_h = hz_scan(repo, scope)
+        for rel, q, rule, line, msg, key in hz:
+            ctx.finding('GEN', '%s::%s::%s %s' % (rel, q, rule, key), rel, line, msg)
+        if not hz:
+            ctx.ok('GEN', '%d functions: none of the four hazards' % n_h)
     if not res:
         ctx.ok('HIST', '%d functions reachable from the entry points: no opaque memo, no shared entry changed in place' % n_fn)
 
